@@ -407,9 +407,9 @@ class PPVStatistic(SpatialBase):
         ax.pop(vaxis)
         a, b = self.stat.projected_paxes(tuple(ax))
         a = list(a)
-        a.insert(0, vaxis)
+        a.insert(vaxis, 0)
         b = list(b)
-        b.insert(0, vaxis)
+        b.insert(vaxis, 0)
         return tuple(a), tuple(b)
 
     @property
